@@ -9,7 +9,25 @@ MC_NOTE = ("Trusted base: regex / regex-automata / regex-syntax (versions pinned
            "every explored product state is replayed through the public is_match. Program size is bounded (see evidence 'bounds'); "
            "path length is unbounded.")
 
+FS_NOTE = ("Trusted base: walkdir and the kernel's tmpfs behave as documented; readdir order on tmpfs is reverse creation order (read back for "
+           "every world and counted); worlds are bounded as stated in the evidence 'rule'.")
+
 CHECKS = {
+    "C02": dict(cat="exploration", tech="exhaustive enumeration of worlds x child orders x globs, real walks vs reference traversal",
+                text="Every world up to N entries over a colliding name set in every child order, every built glob up to size 3 (4 in the thorough tier) of the file-system alphabet, both link behaviours, six base spellings and rooted / ./ ../ a/../ variants are walked for real on tmpfs; the multiset of yielded files must equal the reference traversal filtered with is_match.",
+                ref="DESIGN.md §3 C02, §2.3", note=FS_NOTE + " is_match itself is C01's business."),
+    "C03": dict(cat="model_checking", tech="explicit-state BFS of installed partition DFAs x whole-pattern DFA x ancestor monitor; exhaustive real walks",
+                text="(ii) For every negation the two installed partition programs (hook H3) are explored in product with the whole pattern and the canonical-ancestor monitor over all canonical paths: completeness and tree-discard soundness. (i) Every world x six underlying walks x every negation form is walked for real and compared with per-entry filtering.",
+                ref="DESIGN.md §3 C03", note=MC_NOTE + " " + FS_NOTE),
+    "C13": dict(cat="exploration", tech="stateless exhaustive exploration of verdict histories (deviation-bounded) over real walks",
+                text="Every world x base walk x every set of layers from the menu in every permutation x every filter verdict history with at most k departures from 'keep' (re-execution, branching on every logged call): what the downstream consumer is fed must equal the pruned-tree model.",
+                ref="DESIGN.md §3 C13, Appendix C", note=FS_NOTE),
+    "C14": dict(cat="exploration", tech="exhaustive enumeration of worlds x globs x base spellings; entry equations on every yielded entry",
+                text="Every entry yielded by every walk of the C02 space (six base spellings, rooted variant, path walks) is checked against the entry self-consistency equations.",
+                ref="DESIGN.md §3 C14", note=FS_NOTE),
+    "C16": dict(cat="exploration", tech="stateless exhaustive exploration of stacks x permutations x verdict histories over real walks",
+                text="Same exploration as C13; oracle: every filter layer is called exactly once per fed entry (also for entries discarded upstream), the yield is the set every layer keeps, identical for every permutation of the stack.",
+                ref="DESIGN.md §3 C16", note=FS_NOTE),
     "C01": dict(cat="model_checking", tech="explicit-state BFS of implDFA x referenceDFA x unspecified-clause monitor, all paths",
                 text="For every built expression of the bounded program space whose documented meaning is specified, all reachable states of the product of the implementation's automaton, an independently compiled reference automaton of the documented semantics and the U1-U3 monitor are explored; any state where acceptance differs is a counterexample of unbounded length; every state is replayed through is_match.",
                 ref="DESIGN.md §3 C01, §2.4", note=MC_NOTE + " The reference is three-valued (U1-U5, DESIGN §2.4)."),
